@@ -1009,52 +1009,75 @@ func (x *c04Run) block(bi int, blk c04Block) (caseText, fp string, nontrivial bo
 		}
 		return c
 	}
-	var script []string
-	q := append([]*c04Stored{}, stored...)
-	ai := 0
-	for guard := 0; len(q) > 0 && guard < 100; guard++ {
+	// The tries whose cache context was discarded leave no events, so the outcome of an iteration with a
+	// reverse request is not observable directly (e.g. "m2 executed, m1 dropped" is reached either by
+	// (try1 fails, try2 ok: m1 deleted now, m2 executed later) or by (both ok, m2 preferred: m2 executed now,
+	// m1 deleted when its next try fails)); the two differ in the ORDER of the executions when other requests
+	// are executed in between. The script is therefore searched: outcomes of the coded loop, in a fixed
+	// preference order, with backtracking on the observed execution order; Coq then validates the script.
+	var search func(q []*c04Stored, ai int) ([]string, bool)
+	search = func(q []*c04Stored, ai int) ([]string, bool) {
+		if len(q) == 0 {
+			return nil, ai == len(execs)
+		}
 		m1 := c04SelFirst(q, nil)
 		m2 := c04SelFirst(q, m1.RPfx)
 		_, a1 := applied[m1.Idx]
-		if m2 == nil {
-			if a1 {
-				script = append(script, fmt.Sprintf("(%s, %s, false)", realChoice(m1), c04FailChoice))
-				ai++
-			} else {
-				script = append(script, fmt.Sprintf("(%s, %s, false)", c04FailChoice, c04FailChoice))
-			}
-			q = c04Del(q, m1)
-			continue
-		}
-		_, a2 := applied[m2.Idx]
 		next := -1
 		if ai < len(execs) {
 			next = execs[ai].r.Idx
 		}
-		switch {
-		case a1 && a2:
-			if next == m2.Idx && m2.Idx != m1.Idx {
-				script = append(script, fmt.Sprintf("(%s, %s, false)", c04MinimalOk(m1), realChoice(m2)))
-				q = c04Del(q, m2)
-			} else {
-				c2 := c04MinimalOk(m2)
-				if m2.Idx == m1.Idx {
-					c2 = realChoice(m1)
-				}
-				script = append(script, fmt.Sprintf("(%s, %s, true)", realChoice(m1), c2))
-				q = c04Del(q, m1)
+		try := func(rec string, q2 []*c04Stored, ai2 int) ([]string, bool) {
+			if rest, ok := search(q2, ai2); ok {
+				return append([]string{rec}, rest...), true
 			}
-			ai++
-		case a1: // m2 leaves no trace: its try fails now, m1 stays and is selected again
-			script = append(script, fmt.Sprintf("(%s, %s, false)", c04MinimalOk(m1), c04FailChoice))
-			q = c04Del(q, m2)
-		case a2: // m1 leaves no trace
-			script = append(script, fmt.Sprintf("(%s, %s, false)", c04FailChoice, c04MinimalOk(m2)))
-			q = c04Del(q, m1)
-		default:
-			script = append(script, fmt.Sprintf("(%s, %s, false)", c04FailChoice, c04FailChoice))
-			q = c04Del(c04Del(q, m1), m2)
+			return nil, false
 		}
+		if m2 == nil {
+			if a1 {
+				if next != m1.Idx {
+					return nil, false
+				}
+				return try(fmt.Sprintf("(%s, %s, false)", realChoice(m1), c04FailChoice), c04Del(q, m1), ai+1)
+			}
+			return try(fmt.Sprintf("(%s, %s, false)", c04FailChoice, c04FailChoice), c04Del(q, m1), ai)
+		}
+		_, a2 := applied[m2.Idx]
+		same := m2.Idx == m1.Idx
+		if !a1 && !a2 { // both tries fail
+			if r, ok := try(fmt.Sprintf("(%s, %s, false)", c04FailChoice, c04FailChoice), c04Del(c04Del(q, m1), m2), ai); ok {
+				return r, true
+			}
+		}
+		if !a1 && !same { // try1 fails, try2 succeeds (discarded): m1 deleted, m2 stays
+			if r, ok := try(fmt.Sprintf("(%s, %s, false)", c04FailChoice, c04MinimalOk(m2)), c04Del(q, m1), ai); ok {
+				return r, true
+			}
+		}
+		if !a2 && !same { // try1 succeeds (discarded), try2 fails: m2 deleted, m1 stays and is selected again
+			if r, ok := try(fmt.Sprintf("(%s, %s, false)", c04MinimalOk(m1), c04FailChoice), c04Del(q, m2), ai); ok {
+				return r, true
+			}
+		}
+		if a1 && next == m1.Idx { // both succeed, m1 has the lower stacked slippage: m1 executed, m2 stays
+			c2 := c04MinimalOk(m2)
+			if same {
+				c2 = realChoice(m1)
+			}
+			if r, ok := try(fmt.Sprintf("(%s, %s, true)", realChoice(m1), c2), c04Del(q, m1), ai+1); ok {
+				return r, true
+			}
+		}
+		if a2 && next == m2.Idx && !same { // both succeed, m2 preferred: m2 executed, m1 stays
+			if r, ok := try(fmt.Sprintf("(%s, %s, false)", c04MinimalOk(m1), realChoice(m2)), c04Del(q, m2), ai+1); ok {
+				return r, true
+			}
+		}
+		return nil, false
+	}
+	script, explained2 := search(append([]*c04Stored{}, stored...), 0)
+	if !explained2 {
+		x.fail("C04:batch-outcome-not-explainable", fmt.Sprintf("block %d: no run of the batch loop over the stored requests executes %v (in this order) and drops %v", bi, appliedIdx, droppedIdx))
 	}
 	var pools, init, obs []string
 	for _, id := range x.pools[:3] {
